@@ -1,3 +1,4 @@
+import PasetoModel.JsonLemmas
 import PasetoModel.ClaimsLemmas
 /-! # C14 — RegisteredClaims / Json wire form -/
 namespace PM.C14
@@ -140,5 +141,34 @@ example : claimsDecode (some [(Fld.iss.name, .str [120] none), (Fld.iss.name, .n
 example : claimsDecode (some [([1], .arr), (Fld.exp.name, .str [50] (some 7))]) = .ok { exp := some 7 } := by decide
 example : NoDupRegistered [([1], .arr), (Fld.exp.name, .str [50] (some 7)), ([1], .null)] := by
   simp [NoDupRegistered, fieldOf, Fld.name]
+
+
+/-! ## the wire form as *text* (`Json.lean`): what `RegisteredClaims::encode` writes, byte for byte
+
+`claimsJson` is compared byte-exactly with the library on every run (`claims.json` stream: every absent / present
+combination, strings with escapes, NUL, astral characters and long runs, timestamps over jiff's whole range). -/
+
+/-- the payload is one compact JSON object: `{`, the present members in the fixed order `iss sub aud exp nbf iat jti`
+    separated by `,`, `}` — absent claims contribute nothing -/
+theorem wire_is_compact_object (c : Claims) :
+    Json.claimsJson c = [123] ++ Json.joinComma ((claimsEncode Json.fmtTs c).map Json.memberText) ++ [125] := rfl
+
+/-- an empty claim set is written as `{}` -/
+theorem wire_empty : Json.claimsJson {} = [123, 125] := by decide
+
+/-- string claims are written so that they can be read back byte for byte: the escaping is decodable … -/
+theorem wire_strings_decodable (s : Bytes) : Json.unescape (Json.escape s) = some s := Json.unescape_escape s
+
+/-- … and leaves no raw control byte inside the literal (so the literal ends where the text says it ends) -/
+theorem wire_strings_no_control (s : Bytes) : ∀ ch ∈ Json.escape s, 32 ≤ ch.toNat := Json.escape_no_control s
+
+/-- timestamps are written in the RFC 3339 character set, in UTC (`…Z`) -/
+theorem wire_timestamps_rfc3339_shape (ns : Int) :
+    (∀ ch ∈ Json.fmtTs ns, Json.tsChar ch) ∧ ∃ body, Json.fmtTs ns = body ++ [90] :=
+  ⟨Json.fmtTs_chars ns, Json.fmtTs_ends_Z ns⟩
+
+/-! non-vacuity: a concrete claim set and its text -/
+example : Json.claimsJson { iss := some [97, 34], exp := some 0 } =
+    "{\"iss\":\"a\\\"\",\"exp\":\"1970-01-01T00:00:00Z\"}".toUTF8.toList := by decide +kernel
 
 end PM.C14
